@@ -1,7 +1,7 @@
 """Per-property claim texts for MANIFEST.json (kept next to the obligations registry)."""
 
 ENGINES = [
-    dict(name="jsym", path="jsym/", serves_properties=["C01", "C02", "C03", "C04", "C05", "C06", "C07", "C09", "C12", "C15", "C17", "C18", "C20"],
+    dict(name="jsym", path="jsym/", serves_properties=["C01", "C02", "C03", "C04", "C05", "C06", "C07", "C09", "C12", "C14", "C15", "C17", "C18", "C20"],
          kind_free_text="own concolic executor on z3: proxy objects for ints/reals/bools, every branch decided by the solver, replay-based DFS to exhaustion, prefix-sharded over 16 processes; real JADE code runs natively"),
 ]
 
@@ -86,5 +86,10 @@ CLAIMS["C15"] = dict(
     note=_HN + " JobSubmitter.run_submit_jobs and create_config_from_file are recorders in K-stage only.",
     technique="bounded symbolic execution of the real code with z3 (jsym): solver-chosen stage numbers, return codes and schedules")
 
+CLAIMS["C14"] = dict(
+    text="H-cancel: running submissions (3 jobs; unsubmitted jobs left because of max_nodes or dependencies) through the real CLI in the world model with `jade cancel-jobs` (with and without --no-complete) injected by the solver at every scheduler step, followed by solver-chosen try-submit-jobs / show-status -n and the remaining node events: zero sbatch and zero job launches after the instant the canceled flag became readable, scancel issued for every persisted active id and every batch active in the scheduler model, result rows recorded before the cancel preserved, completion reached by the completion step with never-run jobs reported missing.",
+    note=_HN + " scancel of a running batch kills its node (thread unwound, file system restored to the kill instant).",
+    technique="bounded symbolic execution of the real code with z3 (jsym): solver-chosen cancel instant, schedules and follow-up commands")
+
 _TODO = "check not built yet in this session (planned in DESIGN.md section 6); not claimed until it exists"
-NOT_APPLICABLE = {p: _TODO for p in ["C08", "C10", "C11", "C13", "C14", "C16", "C19"]}
+NOT_APPLICABLE = {p: _TODO for p in ["C08", "C10", "C11", "C13", "C16", "C19"]}
